@@ -828,3 +828,27 @@ Theorem C17_permutation_outcome_satisfiable :
     is_ok (generate r s (types_equal r)) = true.
 Proof. exact V.Proofs.GenerateOkTransfer.permutation_outcome_satisfiable. Qed.
 Print Assumptions C17_permutation_outcome_satisfiable.
+
+(** a semantic class on which the hypothesis [teq_equiv_on_families] holds: the program-derived
+    registries of the fragment of [C04_program_untouched_partial] (definitions in
+    [teq_program_okb], pairwise distinct definition paths, coincidence-free interned
+    instantiations) - there all entries carrying one namespaced path are judged equal.  So on this
+    class [C17_dedup_partition_invariant_partial] and [C17_generate_ok_transfer_partial] hold for
+    every renumbering without a run-time check.  PARTIAL: the fragment. *)
+From V Require Model.Program Model.ProgramSkel Model.ProgramTeq.
+
+Theorem C17_program_teq_equiv_partial :
+  forall defs L r,
+    V.Model.Program.RegistryOf defs L r ->
+    (forall sd, In sd defs ->
+       V.Model.ProgramTeq.teq_program_okb sd = true /\
+       forall lsb, V.Model.Program.sd_path sd <> V.Model.ProgramSkel.order_path_of lsb) ->
+    (forall d1 d2 sd1 sd2,
+       nth_error defs d1 = Some sd1 -> nth_error defs d2 = Some sd2 ->
+       V.Model.Program.sd_path sd1 = V.Model.Program.sd_path sd2 -> d1 = d2) ->
+    (forall id d args sd,
+       L id = Some (V.Model.Program.SApp d args) -> nth_error defs d = Some sd ->
+       V.Model.Program.instantiation_cf defs sd args = true /\ map V.Model.Program.canon args = args) ->
+    V.Model.DedupPerm.teq_equiv_on_families r.
+Proof. exact V.Proofs.GenerateOkTransfer.program_teq_equiv. Qed.
+Print Assumptions C17_program_teq_equiv_partial.
